@@ -55,7 +55,9 @@ public:
     {
         std::unique_lock<std::mutex> lock(mutex_);
         size_t res = ++value_;
-        cv_.notify_one();
+        // waiters may wait for different amounts: waking only one of them can
+        // pick one that still cannot proceed while another one could
+        cv_.notify_all();
         return res;
     }
 
